@@ -40,7 +40,7 @@ var c02Wide = []string{"a", "if", " ", "\n", ";", "|", "&", "=", "{", "}", "[", 
 	"$x", "@", ">", "<", "#", ",", "~", "*", "?(", "é", ":", "\r"}
 
 // The 20-token program alphabet of the plan (a subset of the above), walked one
-// token deeper in the thorough tier.
+// token deeper than the 30-token one.
 var c02Prog = []string{"a", "if", " ", "\n", ";", "|", "&", "=", "{", "}", "[", "]", "(", ")", "'", "\"", "^", "$x", ">", "#"}
 
 // The structural core (12 tokens), walked deeper.
@@ -550,8 +550,8 @@ func TestVerifC02(t *testing.T) {
 			depth int
 		}
 		walks := []walk{
-			{"program(30)", c02Wide, 5},
-			{"program(20)", c02Prog, vk.Pick(c, 0, 6)},
+			{"program(30)", c02Wide, vk.Pick(c, 4, 5)},
+			{"program(20)", c02Prog, vk.Pick(c, 5, 6)},
 			{"string-escape(12)", c02Esc, vk.Pick(c, 6, 7)},
 			{"structural(12)", c02Core, vk.Pick(c, 6, 7)},
 		}
